@@ -24,9 +24,11 @@ type mx_state = {
   mutable plug_out : string;
   mutable plug_sig : int;
   mutable plug_sleep : int;
+  mutable plug_term : string;
+  mutable plug_gchild : int;
 }
 let mx_fresh () = { vars = []; attrs = []; envs = []; cmd_arr = true; cmd = []; have_args = false; args = [];
-                    plug_exit = 0; plug_out = "-"; plug_sig = 0; plug_sleep = 0 }
+                    plug_exit = 0; plug_out = "-"; plug_sig = 0; plug_sleep = 0; plug_term = ""; plug_gchild = 0 }
 let mx_st = ref (mx_fresh ())
 
 let mx_scalar spec =
@@ -71,7 +73,8 @@ let mx_apply st op a =
       mx_as_sep = (if dict then opt "sep" else None);
       mx_as_set_if = (if dict then sv "sif" else MxEmpty) } ]
   | "mx_plug" ->
-    st.plug_exit <- num a "exit" 0; st.plug_out <- str a "out" "-"; st.plug_sig <- num a "sig" 0; st.plug_sleep <- num a "sleep" 0
+    st.plug_exit <- num a "exit" 0; st.plug_out <- str a "out" "-"; st.plug_sig <- num a "sig" 0; st.plug_sleep <- num a "sleep" 0;
+    st.plug_term <- str a "term" ""; st.plug_gchild <- num a "gchild" 0
   | _ -> ()
 
 let mx_level st lvl name =
@@ -95,14 +98,42 @@ let mx_res_line = function
   | MxCmdStr s -> "res sh " ^ mx_hex s
   | MxCmdThrow _ -> "res err"
 
-let mx_plug_exit st = if st.plug_sig <> 0 || st.plug_sleep <> 0 then 128 else st.plug_exit
+let mx_plug_exit st = if st.plug_sig <> 0 || st.plug_sleep <> 0 || st.plug_gchild <> 0 then 128 else st.plug_exit
+
+(* timeout scenarios (the generator makes the plugin, or a grandchild holding the pipe, outlive the timeout by a wide
+   margin): the course of Process::DoEvents calls the scenario forces.  Only the facts "soft / hard deadline passed"
+   matter (C09_timeout_unknown), so one representative course per scenario is enough. *)
+let mx_timeout_scenario st = st.plug_sleep <> 0 || st.plug_gchild <> 0
+let mx_timeout_events st : mx_pev list =
+  let ev soft hard rd w = { mx_ev_past_soft = soft; mx_ev_past_hard = hard; mx_ev_read = rd; mx_ev_wait = w } in
+  let out = mx_unhex st.plug_out in
+  let first = ev false false (MxReadAgain out) MxWaitFail in
+  let term = ev true false (MxReadAgain []) MxWaitFail in
+  let killed w = ev true true (MxReadAgain []) w in
+  if st.plug_gchild <> 0 && st.plug_sleep = 0 then
+    (* the plugin has exited on its own, the pipe stays open: SIGTERM (to a zombie), then SIGKILL to the group *)
+    [ first; term; killed (MxWaitExit (z_of_int st.plug_exit)) ]
+  else if st.plug_term = "ignore" then [ first; term; killed (MxWaitSignal (mx_b "9 (Killed)")) ]
+  else if String.length st.plug_term > 5 && String.sub st.plug_term 0 5 = "exit:" then begin
+    match String.split_on_char ':' st.plug_term with
+    | [ _; code; delay ] when int_of_string delay <= 50 ->
+      [ first; term; ev true false (MxReadEof (mx_b "trapped")) (MxWaitExit (z_of_int (int_of_string code))) ]
+    | _ -> [ first; term; killed (MxWaitSignal (mx_b "9 (Killed)")) ]
+  end
+  else [ first; term; ev true false (MxReadEof []) (MxWaitSignal (mx_b "15 (Terminated)")) ]
 
 let mx_exec_line st (o : mx_obs_exec) argv_unknown =
   let b = Buffer.create 128 in
   Buffer.add_string b ("exec argv=" ^ (match o.mx_oe_argv with Some l -> mx_hexlist l | None -> if argv_unknown then "?" else "none"));
+  if mx_timeout_scenario st && o.mx_oe_argv <> None then begin
+    (match mx_timeout_observe (mx_timeout_events st) with
+     | Some ((s, e), m) -> Buffer.add_string b (Printf.sprintf " state=%s exit=%s tmo=%d" (zs s) (zs e) (if m then 1 else 0))
+     | None -> Buffer.add_string b " state=? exit=? tmo=?");
+    if st.plug_gchild <> 0 then Buffer.add_string b " gc=dead"
+  end else
   Buffer.add_string b (Printf.sprintf " state=%s exit=%s" (zs o.mx_oe_state) (zs o.mx_oe_exit));
   (match o.mx_oe_out with
-   | Some (t, pd) when st.plug_sig = 0 && st.plug_sleep = 0 -> Buffer.add_string b (Printf.sprintf " out=%s pd=%s" (mx_hex t) (mx_hexlist pd))
+   | Some (t, pd) when st.plug_sig = 0 && not (mx_timeout_scenario st) -> Buffer.add_string b (Printf.sprintf " out=%s pd=%s" (mx_hex t) (mx_hexlist pd))
    | _ -> ());
   Buffer.contents b
 
@@ -132,6 +163,7 @@ let mx_code_name c =
   | 4 -> "argv-count" | 5 -> "argv-content" | 6 -> "shell-string"
   | 11 -> "plugin-started-after-failed-resolution" | 12 -> "shell-string-outside-model" | 13 -> "argv-through-sh" | 14 -> "argv-execvp"
   | 15 -> "failure-not-unknown" | 16 -> "exit-status" | 17 -> "exit-map" | 18 -> "output-text" | 19 -> "perfdata"
+  | 50 -> "timeout-not-unknown" | 51 -> "timeout-marker" | 52 -> "timeout-scenario" | 53 -> "grandchild-survived"
   | 20 -> "escape" | 21 -> "escape-not-one-word" | 30 -> "exit-map" | 40 -> "output-text" | 41 -> "output-perf" | 42 -> "perfdata"
   | n -> "code-" ^ string_of_int n
 
@@ -168,6 +200,10 @@ let oracle_c09_case script trace =
               let argv = (match tok_val t "argv" with Some "none" | None -> None | Some s -> Some (mx_unhexlist s)) in
               let out = (match tok_val t "out", tok_val t "pd" with Some o, Some p -> Some (mx_unhex o, mx_unhexlist p) | _ -> None) in
               if List.exists (fun x -> String.length x >= 4 && String.sub x 0 4 = "HANG") t then Some (z_of_int 99) else
+              if mx_timeout_scenario st && argv <> None then begin
+                if tok_val t "gc" = Some "alive" then Some (z_of_int 53) else
+                mx_oracle_timeout (mx_timeout_events st) (z_of_int (geti "state")) (z_of_int (geti "exit")) (tok_val t "tmo" = Some "1")
+              end else
               mx_oracle_exec (mx_env st (num a "svc" 0 <> 0)) (mx_command st) (mx_arguments st) (z_of_int (mx_plug_exit st)) (mx_unhex st.plug_out)
                 { mx_oe_argv = argv; mx_oe_state = z_of_int (geti "state"); mx_oe_exit = z_of_int (geti "exit"); mx_oe_out = out }
             | "mx_esc", [ "esc"; h ] -> mx_oracle_escape (mx_unhex (str a "v" "-")) (mx_unhex h)
